@@ -808,20 +808,21 @@ def shard_C(acc, pairs, tier):
         if j >= 0:
             # line-oriented peer: a newline after every message, tnet_from told to ignore newlines between messages (as the
             # tnet server does); payloads may themselves contain newlines; every chunking of the separated stream
-            sep = b"\n"
-            stream = b"".join(ref_dump(x) + sep for x in msgs)
-            for flabel, cuts in feedings(stream, len(ref_dump(v)), "quick"):
-                chunks = split_chunks(stream, cuts)
-                acc.ev()
-                acc.ntc()
-                bad = run_tnet_from(msgs, b"", chunks, False, ignore=sep)
-                acc.outcome("C ignore-separated")
-                if not bad:
-                    acc.count("C_ok")
-                for kind, msg in bad:
-                    case = mcase("tnet_from", msgs, b"", chunks, False)
-                    case["ignore"] = sep
-                    acc.violation("ignore:" + kind, case, msg)
+            # separators: one newline; CR LF (both symbols ignored); a blank line (a run of separators may itself be cut)
+            for sep, ign in ((b"\n", b"\n"), (b"\r\n", b"\r\n"), (b"\n\n", b"\n")):
+                stream = b"".join(ref_dump(x) + sep for x in msgs)
+                for flabel, cuts in feedings(stream, len(ref_dump(v)), "quick"):
+                    chunks = split_chunks(stream, cuts)
+                    acc.ev()
+                    acc.ntc()
+                    bad = run_tnet_from(msgs, b"", chunks, False, ignore=ign)
+                    acc.outcome("C ignore-separated")
+                    if not bad:
+                        acc.count("C_ok")
+                    for kind, msg in bad:
+                        case = mcase("tnet_from", msgs, b"", chunks, False)
+                        case["ignore"] = ign
+                        acc.violation("ignore:" + kind, case, msg)
 
 
 # ------------------------------------------------------------------------------------------------
